@@ -1175,6 +1175,34 @@ func (e *Env) evalLocs(x ast.Expr) ([]modLoc, error) {
 					}
 				}
 				return locs, nil
+			case "locs":
+				var out []modLoc
+				for _, a := range c.Args {
+					ls, err := e.evalLocs(a)
+					if err != nil {
+						return nil, err
+					}
+					out = append(out, ls...)
+				}
+				return out, nil
+			case "anyfield":
+				// anyfield(T, f): field f of every object of struct type T
+				ty, err := e.resolveType(c.Args[0])
+				if err != nil {
+					return nil, err
+				}
+				fid, ok := c.Args[1].(*ast.Ident)
+				if !ok {
+					return nil, fmt.Errorf("anyfield(T, field)")
+				}
+				path, tys, ok := findField(ty, fid.Name)
+				if !ok || len(path) != 1 {
+					return nil, fmt.Errorf("anyfield: no direct field %s", fid.Name)
+				}
+				sn := e.v.sortOf(ty)
+				id := e.v.D.structBase[sn] + path[0]
+				fs := e.v.sortOf(tys[0])
+				return []modLoc{{kind: "anyfield", key: heapKeyForSort(fs), sort: fs, addr: intLit(int64(id))}}, nil
 			case "valueof":
 				// the value a boxed pointer points to: precise when the box is syntactic, otherwise under()
 				p, err := e.eval(c.Args[0])
